@@ -7,12 +7,15 @@ import re
 from harness import core, xdoc
 
 GEN = ['gen_tables', 'gen_regex', 'gen_config', 'gen_escapes']
-THEOREMS = ['C14_bounded_prose', 'C14_block_starts_need_their_marker', 'C14_inert_predicate_is_not_vacuous']
+THEOREMS = ['C14_plain_line_passes_through', 'C14_plain_line_parses', 'C14_plain_hypotheses_hold', 'C14_bounded_prose', 'C14_block_starts_need_their_marker', 'C14_inert_predicate_is_not_vacuous']
 TRUSTED = ['the inertness predicate (harness/props/c14.py:inert, written from the CommonMark 0.30 / GFM block-start and inline rules, conservative: '
            'when in doubt a paragraph is skipped) and its Coq twin Proofs/Prose.v:inert_text used by the kernel sweep',
            'the parser and HTML renderer models (tied by X-doc and X-html on the same paragraphs)',
            'vm_compute for the bounded sweep']
-ASSUMPTIONS = ['PARTIAL: kernel-checked for every paragraph of up to 2 lines x up to 2 tokens (and single lines of 3 tokens) over a 16-token vocabulary that '
+ASSUMPTIONS = ['unbounded theorem (whole pipeline model): a line free of the 14 trigger characters \\ * _ [ ] ! ` ~ < newline $ & { | that begins with a non-marker character '
+               'and does not end in white space renders as <p>escaped text</p>, for every modelled token configuration; the random plain-line stream ties '
+               'that class to the implementation',
+               'PARTIAL for paragraphs in which trigger characters occur in inert positions: kernel-checked for every paragraph of up to 2 lines x up to 2 tokens (and single lines of 3 tokens) over a 16-token vocabulary that '
                'passes the Coq inertness predicate; the ~120-token vocabulary and 1-4 lines are covered on the implementation by the oracle, the model tied by X-doc',
                'unbounded lemma proved: a line that does not begin with the marker character of a block kind cannot start that kind (first-character analysis '
                'of the regenerated patterns): #, >, `, ~, -, +, *, _, digits, <, [, | and space are the only characters that can begin a non-paragraph block',
@@ -128,6 +131,16 @@ def worker(lines):
     return out
 
 
+def plain_worker(l):
+    import mistletoe
+    from mistletoe.html_renderer import HtmlRenderer
+    try:
+        with HtmlRenderer() as r:
+            return r.render(mistletoe.Document([l + '\n']))
+    except Exception as e:
+        return 'EXC %s: %s' % (type(e).__name__, e)
+
+
 def run(ctx, only=None):
     ctx.cov['rule'] = ('paragraphs of 1-4 lines x 1-6 tokens from a %d-token vocabulary of tricky-but-inert words, kept when the independent inertness predicate '
                        'holds; every 1- and 2-token line exhaustively; each with and without a final newline; non-trivial = the paragraph contains a character '
@@ -165,6 +178,22 @@ def run(ctx, only=None):
             ctx.failing.append({'interface': 'oracle(prose)', 'input': {'text': form}, 'what': 'an inert paragraph is not rendered as its own text inside one <p>',
                                 'observed': got, 'expected': want, 'kf': None})
     ctx.cov['paragraphs_skipped_by_the_inertness_predicate'] = skipped
+    # the class of the unbounded theorem, on the implementation: random lines free of the trigger characters
+    wide = list('abcXYZ019 .,;:?()"\'#+-=>/@%^}') + ['é', '中', '\u00a0', '\u3000', 'ß', '—', '«', '😀', '\x0c', '\x1f']
+    plain = []
+    while len(plain) < (3000 if ctx.quick() else 60000):
+        l = ''.join(rng.choice(wide) for _ in range(rng.randint(1, 30)))
+        if not l[0].isspace() and l[0] not in '#*+-0123456789<>[_`~' and not l[-1].isspace():
+            plain.append(l)
+    with mp.Pool(core.NPROC) as pool:
+        pres = pool.map(plain_worker, plain, chunksize=200)
+    for l, got in zip(plain, pres):
+        ctx.count('evaluations')
+        ctx.count('plain_lines')
+        want = '<p>' + html.escape(l, quote=False) + '</p>\n'
+        if got != want:
+            ctx.failing.append({'interface': 'oracle(plain line)', 'input': {'lines': [l + '\n']}, 'what': 'a line without trigger characters is not rendered as its own text inside one <p>',
+                                'observed': got, 'expected': want, 'kf': None})
     ctx.cov['vocabulary'] = len(VOCAB)
     ctx.cov['lines_per_paragraph'] = {str(n): sum(1 for p in kept if len(p) == n) for n in (1, 2, 3, 4)}
     ctx.count('distinct_nontrivial', nontriv)
